@@ -72,10 +72,6 @@ Inductive rel_events (al : env) : list stmt -> list event -> Prop :=
 | RE_setitem i k v obj k' v' b l :
     nth_error al i = Some obj -> rel al k k' -> rel al v v' -> rel_events al b l ->
     rel_events al (SSetItemV i k v :: b) (EvSetItem obj k' v' :: l)
-| RE_update i kvs obj kvs' b l :
-    nth_error al i = Some obj -> Forall2 (rel_pair al) kvs kvs' -> rel_events al b l ->
-    rel_events al (SExpr (ECall (EAttr (EVar i) "update") [EDictLit kvs] None) :: b)
-               (rev (map (fun kv => EvSetItem obj (fst kv) (snd kv)) kvs') ++ l)
 | RE_result e v b l :
     rel al e v -> rel_events al b l -> rel_events al (SResult e :: b) l.
 
@@ -163,6 +159,5 @@ Proof.
   - eapply RE_setstate; eauto using rel_mono.
   - eapply RE_alias; eauto using rel_mono.
   - eapply RE_setitem; eauto using rel_mono.
-  - eapply RE_update; eauto using rel_pairs_mono.
   - eapply RE_result; eauto using rel_mono.
 Qed.
